@@ -799,15 +799,17 @@ func TestC20(t *testing.T) { checkProp(t, "C20", "main", genC20, execC20) }
 // ---- C20 overlap: two RPCs inside the server chain at the same time -------------------------
 
 type C20Overlap struct {
-	Kind   int  `json:"kind"`
-	Chain  int  `json:"chain"`   // server chain length 2..6
-	ParkAt int  `json:"park_at"` // the first RPC parks inside this interceptor (before calling the next stage)
-	Ser    bool `json:"ser"`
+	Kind   int    `json:"kind"`
+	Chain  int    `json:"chain"`   // server chain length 2..6
+	ParkAt int    `json:"park_at"` // the first RPC parks inside this interceptor (before calling the next stage)
+	Ser    bool   `json:"ser"`
+	Topo   string `json:"topo"` // direct | proxy | demux: what the server's chain sees must not depend on the path the call took
 }
 
 func genC20Overlap(t *rapid.T) C20Overlap {
 	c := C20Overlap{Kind: rapid.SampledFrom([]int{kit.KindUnary, kit.KindBidi}).Draw(t, "kind"), Chain: rapid.IntRange(2, 6).Draw(t, "chain"), Ser: rapid.Bool().Draw(t, "ser")}
 	c.ParkAt = rapid.IntRange(0, c.Chain-1).Draw(t, "park_at")
+	c.Topo = rapid.SampledFrom([]string{"direct", "direct", "proxy", "demux"}).Draw(t, "topo")
 	return c
 }
 
@@ -869,7 +871,11 @@ func execC20Overlap(t *testing.T, c C20Overlap) (v Verdict) {
 			}
 			return kit.SendBytes(s, b)
 		})
-		w := kit.NewWorld(kit.Topo{Kind: "direct", Serialize: c.Ser, Clients: 1}, svc, []goat.ServerOption{goat.ChainUnaryInterceptor(uis...), goat.ChainStreamInterceptor(sis...)}, nil)
+		topo := c.Topo
+		if topo == "" {
+			topo = "direct"
+		}
+		w := kit.NewWorld(kit.Topo{Kind: topo, Serialize: c.Ser, Clients: 1}, svc, []goat.ServerOption{goat.ChainUnaryInterceptor(uis...), goat.ChainStreamInterceptor(sis...)}, nil)
 		firstMaySend := make(chan struct{})
 		call := func(name string) {
 			ctx := metadata.AppendToOutgoingContext(context.Background(), "rpc", name)
